@@ -193,6 +193,7 @@ class IdxArr:
 
 AT = sp.Function("at")  # at(expr, *index): element of a symbol that stands for an array
 MASKED = sp.Function("masked")  # masked(new, mask, old): `a[mask] = new` applied to `old`
+UNRAVEL = sp.Function("unravel")  # unravel(k, j, *dims): j-th row-major digit of k for shape dims
 RNG = sp.Function("rng")  # rng(lo, hi): half-open index range lo <= k < hi of one axis
 
 
@@ -2022,8 +2023,65 @@ class Interp:
                 return Vec(list(range(lo, hi)))
             return IdxArr(IdxArr.K + lo, hi - lo)
 
+        def _linspace(lo, hi, num=50, endpoint=True, **k):
+            if k:
+                I.fail(None, f"np.linspace keywords {sorted(k)}")
+            lo, hi, num = I.as_expr(lo), I.as_expr(hi), to_py(num)
+            den = (num - 1) if to_py(endpoint) else num
+            if isinstance(num, int):
+                return Vec([lo + (hi - lo) * sp.Rational(j, den) for j in range(num)])
+            return IdxArr(lo + (hi - lo) * IdxArr.K / den, num)
+
+        def _seq(x, what):
+            if isinstance(x, WholeArr) and isinstance(x.val, (Vec, list, tuple)):
+                x = x.val
+            if isinstance(x, (Vec, list, tuple)):
+                return [I.as_expr(v) for v in x]
+            I.fail(None, f"{what} of a sequence of unknown length")
+
+        def _cumulate(op, what):
+            def run(x, **k):
+                if k:
+                    I.fail(None, f"np.{what} keywords {sorted(k)}")
+                out, acc = [], None
+                for v in _seq(x, f"np.{what}"):
+                    acc = v if acc is None else op(acc, v)
+                    out.append(acc)
+                return Vec(out)
+
+            return run
+
+        def _dot(a, b):
+            a, b = _seq(a, "np.dot"), _seq(b, "np.dot")
+            if len(a) != len(b):
+                I.fail(None, "np.dot of sequences of different length")
+            return sum((x * y for x, y in zip(a, b)), sp.Integer(0))
+
+        def _ravel_multi_index(idx, dims, **k):
+            if k:
+                I.fail(None, f"np.ravel_multi_index keywords {sorted(k)}")
+            idx, dims = _seq(idx, "np.ravel_multi_index"), _seq(dims, "np.ravel_multi_index")
+            if len(idx) != len(dims):
+                I.fail(None, "np.ravel_multi_index: index and shape differ in length")
+            out = sp.Integer(0)
+            for i, n in zip(idx, dims):
+                out = out * n + i
+            return sp.expand(out)
+
+        def _unravel_index(k, dims, **kw):
+            if kw:
+                I.fail(None, f"np.unravel_index keywords {sorted(kw)}")
+            dims = _seq(dims, "np.unravel_index")
+            return Vec([UNRAVEL(I.as_expr(k), j, *dims) for j in range(len(dims))])
+
         return {
             "arange": _arange,
+            "linspace": _linspace,
+            "cumprod": _cumulate(lambda a, b: a * b, "cumprod"),
+            "cumsum": _cumulate(lambda a, b: a + b, "cumsum"),
+            "dot": _dot,
+            "ravel_multi_index": _ravel_multi_index,
+            "unravel_index": _unravel_index,
             "pi": sp.pi,
             "e": sp.E,
             "inf": sp.oo,
